@@ -232,6 +232,8 @@ def run_property(prop, spec, tier, seed, only=None):
     ev_h = []
     try:
         hs = [h for h in stage.harnesses if (tier == "thorough" or h.tier == "quick")]
+        of = spec.get("only_from") or {}
+        hs = [h for h in hs if h.file not in of or h.name in of[h.file]]
         if only:
             hs = [h for h in hs if any(re.search(o, h.name) for o in only)]
         rnd = random.Random(seed)
